@@ -742,7 +742,9 @@ func c09R4(p *Prog, r *Report) {
 		pc := NewPolyCtx(tds)
 		Instrs(tds, func(in ssa.Instruction) {
 			call, ok := in.(*ssa.Call)
-			if !ok || call.Call.StaticCallee() == nil || call.Call.StaticCallee().Name() != "triggerAt" {
+			// the record cutter: a method of the same processor that returns a record (triggerAt or
+			// the function it wraps), position in its first argument
+			if !ok || call.Call.StaticCallee() == nil || typeName(call.Type()) != "DataRecord" || len(call.Call.Args) < 2 {
 				return
 			}
 			if call.Call.Args[0] != ssa.Value(tds.Params[0]) {
